@@ -47,6 +47,7 @@ from ..ref import ops
 
 ID = "C11"
 LEVEL = "exploration"
+TECHNIQUE = "runtime monitoring: residual oracle (the Neumann finite-difference operator applied to the returned field, no solve in the oracle) + independent DCT-II solve as second opinion, bitwise vector-vs-scalar differential"
 TITLE = "Fast-diagonalisation solver solves the discrete Neumann Poisson problem"
 RULE = (
     "solver objects of both classes over random shapes (2..24 per side quick, 2..64 thorough; non-square/"
